@@ -101,6 +101,9 @@ C09(f, g) ==
 C10(f, ob) ==
      If(ob.mem.inside /\ ob.mem.has_entries /\ AbsTable(ob.mem.entries) # f.table, "C10:mem_ne_disk")
   \cup If(ob.reopen.ok /\ AbsTable(ob.reopen.entries) # f.table, "C10:reopen_ne_disk")
+  \* "... dates to the second": the access date too (it is outside the file model - the library stamps
+  \* it with the clock - but the object and the file must still agree on it)
+  \cup If(ob.mem.inside /\ ob.mem.has_entries /\ ob.mem.adates # ob.disk.adates, "C10:mem_ne_disk")
   \cup If(~ob.reopen.ok, "C10:reopen_failed")
   \cup If(ob.view.on /\ ob.view.nbytes # ob.disk.flen, "C10:nbytes_ne_stat")
   \cup If(ob.view.on /\ \E k \in 1..NTypes :
